@@ -180,7 +180,7 @@ func verifC09(method string, requester *net.UDPAddr, symbolicIDs bool) {
 		}
 		if symbolicIDs {
 			contacts[i].addr = verifContactAddr(i, verifNondetBool())
-		} else if f := verifChoice(0, 2); f == 0 {
+		} else if f := verifC09AddrForm(i); f == 0 {
 			contacts[i].addr = &net.UDPAddr{IP: net.IP{198, 51, 100, byte(10 + i)}, Port: 2000 + i}
 		} else if f == 1 {
 			// an IPv4 contact held in the 16-byte form (what a dual-stack socket, net.IPv4 and
@@ -206,6 +206,15 @@ func verifC09(method string, requester *net.UDPAddr, symbolicIDs bool) {
 	// the requester itself entered the table by querying (bucket 2, never answered: not good)
 	verifC09Check(v, reply, contacts, tb, w4, w6)
 	verifReach("end")
+}
+
+// The address form of contact i: the two contacts that may be listed take every form; the third one
+// (nearer to this node than the target, never listed) is a plain IPv4 contact.
+func verifC09AddrForm(i int) int {
+	if i >= 2 {
+		return 0
+	}
+	return verifChoice(0, 2)
 }
 
 var verifReq4 = &net.UDPAddr{IP: net.IP{192, 0, 2, 7}, Port: 999}
